@@ -437,7 +437,10 @@ def run(res):
     real_os = list_drf.os
     try:
         for ti, (tname, tree) in enumerate(trees):
-            root = os.path.join(top, "t%d" % ti)
+            # the directory handed to the listing is the caller's: its own name means nothing -- also when it looks like a
+            # timestamped subdirectory, a data file or a channel's tmp. entry (an experiment directory named after its day)
+            root_name = ["t%d", "2019-03-05T12-00-%02d", "t%d", "rf@15000000%02d.000.h5", "t%d", "tmp.t%d"][ti % 6] % ti
+            root = os.path.join(top, root_name)
             gone = materialize(root, tree)
             list_drf.os = OsProxy(real_os, gone)
             enc = enc_node(tree)
@@ -486,7 +489,7 @@ def run(res):
                 res.case((tname, json.dumps(tree, sort_keys=True) if ti >= 0 else "", fl, st, en, recursive, reverse, ctx),
                          nontrivial=bool(got) or err is not None)
                 res.count("tree:" + (tname if not tname.startswith("random") else "random"))
-                inp = {"tree": tree, "flags": list(fl), "window_us": [st, en], "recursive": recursive,
+                inp = {"tree": tree, "root_name": root_name, "flags": list(fl), "window_us": [st, en], "recursive": recursive,
                        "reverse": reverse, "entry": ctx}
                 # model vs implementation: which variant does /repo implement?
                 m_ok = False
@@ -699,6 +702,9 @@ def replay(res, rp):
     from digital_rf import list_drf
     i = rp["input"]
     root = common.scratch_dir()
+    if i.get("root_name"):
+        root = os.path.join(root, i["root_name"])
+        print("the listed directory is named", i["root_name"])
     gone = materialize(root, i["tree"])
     real_os = list_drf.os
     list_drf.os = OsProxy(real_os, gone)
